@@ -6,7 +6,7 @@ from .encoders import encode_multipart
 from .wsgi import make_environ
 
 KINDS = ['ok', 'ok_json_accept', 'notfound', 'notfound_json', 'wrongverb', 'badpath', 'badchunk', 'oversized', 'badmultipart', 'badjson', 'crash', 'raised', 'gen', 'form',
-         'cookie_then_abort', 'head_ok', 'rex', 'typed', 'expires', 'longpath', 'longquery', 'status_str', 'status_int', 'signed', 'urlinfo', 'auth', 'bigform', 'chunked_ok', 'header_case', 'inject_arg', 'notmodified', 'nocontent', 'blog_direct', 'dm_info', 'resp_copy', 'form_fixed', 'sess_mutate', 'qs_reassign', 'api_404', 'api_item', 'neg_cl', 'hugepath', 'urlbuild', 'manyheaders']
+         'cookie_then_abort', 'head_ok', 'rex', 'typed', 'expires', 'longpath', 'longquery', 'status_str', 'status_int', 'signed', 'urlinfo', 'auth', 'bigform', 'chunked_ok', 'header_case', 'inject_arg', 'notmodified', 'nocontent', 'blog_direct', 'dm_info', 'resp_copy', 'form_fixed', 'sess_mutate', 'qs_reassign', 'api_404', 'api_item', 'neg_cl', 'hugepath', 'urlbuild', 'manyheaders', 'emptyform', 'emptybody', 'upload_headers']
 
 
 # kinds for sequential histories only (their handlers change application-wide state on purpose: hooks, a shared prepared error object)
@@ -112,6 +112,15 @@ def make_app(probe=None, config=None, private_errors=False, app=None, foreign=No
         out = 'form ' + ','.join('%s=%s' % (k, f[k]) for k in sorted(f))
         p('form:end')
         return out
+
+    @app.route('/upload', method='POST', overwrite=True)
+    def upload():
+        # shows what the upload itself says about its part: content type and the part's own headers
+        up = rq.files.get('f')
+        if up is None:
+            return 'upload none'
+        hs = getattr(up, 'headers', None)
+        return 'upload %s %s %s %s' % (up.raw_filename, up.content_type, sorted((k, str(v)) for k, v in (dict(hs).items() if hs else [])), up.file.read())
 
     @app.route('/json', method='POST', overwrite=True)
     def js():
@@ -377,6 +386,17 @@ def make_env(kind, n, stream_cls=Stream):
         return _e('GET', '/oneshot', q)
     if kind == 'prepared_error':
         return _e('GET', '/prepared', q, headers={'Accept': 'application/json' if n % 3 == 0 else 'text/html'})
+    if kind == 'emptyform':
+        # a multipart request that declares a boundary but carries no body at all
+        return _e('POST', '/form', q, stream=stream_cls(b''), content_length=0, headers={'Content-Type': 'multipart/form-data; boundary=E%dmpty' % n})
+    if kind == 'emptybody':
+        return _e('POST', '/body', q, stream=stream_cls(b''), content_length=0)
+    if kind == 'upload_headers':
+        b = 'U%dp' % n
+        parts = [{'name': 'f', 'filename': 'a%d.bin' % n, 'value': b'data %d' % n, 'ctype': ('text/x-n%d' % n) if n % 2 else None,
+                  'extra_headers': [('X-Upload-Token', 'token-%d' % n)] if n % 3 == 0 else None}, {'name': 't', 'value': b'text'}]
+        data, _ = encode_multipart(b, parts, b'', b'\r\n')
+        return _e('POST', '/upload', q, stream=stream_cls(data), content_length=len(data), headers={'Content-Type': 'multipart/form-data; boundary=' + b})
     if kind == 'qs_reassign':
         return _e('GET', '/reassign', q, headers={'Cookie': 'seen=v%d' % n})
     if kind == 'api_404':
